@@ -284,6 +284,10 @@ def run(ck, F):
     _c02.redeclaration_operands(ck, F, 'C09', only={'type'})
 
     scope_size_rule(ck, F, 'C09')
+    # a node given its type at construction keeps reporting it: a typed make_ request returns a node of its own, not an existing one
+    # whose type the client can still set (the mutable placeholders)
+    import borrow as _borrow
+    _borrow.borrow(ck, F, 'C05', 'C09', {'make-is-fresh'})
     # members entered into an enumeration, a parameter list, a base list: the enumerator has the enumeration as its type, a parameter
     # or a base the type it was given -- on every path, whatever else the owner has been told since (an underlying type, ...)
     MEMBER_TYPES = {'ipr::impl::Enum::add_member(const ipr::Name &)': '$this',
